@@ -31,10 +31,10 @@ SPEC = {
         {"driver": "drv_c02b", "harness": "c02/serix", "gomemlimit": "8GiB"},
     ],
     "theorems": ["C02_no_panic", "C02_consumed_le",
-                 "C02_deser_no_panic", "C02_deser_consumed_le", "C02_alloc_linear", "C02_iters_linear",
+                 "C02_deser_no_panic", "C02_deser_consumed_le", "C02_deser_offset_le", "C02_alloc_linear", "C02_iters_linear",
                  "C02_oversized_length_allocates_nothing", "C02_oversized_count_bounded",
                  "C02_omap_total", "C02_typeutils_consumed_le",
-                 "C02_stream_no_panic", "C02_stream_consumed_le", "C02_stream_alloc_linear", "C02_stream_iters_linear",
+                 "C02_stream_no_panic", "C02_stream_consumed_le", "C02_stream_alloc_linear", "C02_stream_iters_linear", "C02_stream_seek_no_panic", "C02_stream_bytesRead_le",
                  "C02_json_no_panic", "C02_all",
                  "C02_skeleton_structFieldsCache_Get", "C02_skeleton_structFieldsCache_Set", "C02_skeleton_API_getStructFields",
                  "C02_skeleton_TypeSettingsRegistry_GetByType", "C02_skeleton_TypeSettingsRegistry_GetByValue",
